@@ -11,7 +11,7 @@ from props import _hist as H
 
 PID = "C06"
 RULE = (
-    "cases = initial F letter(6, one an int64 array) x flow letter(11: simple shear, pure shear, non-commuting generic, "
+    "cases = initial F letter(8: one an int64 array, one in Fortran order, one a transposed view) x flow letter(11: simple shear, pure shear, non-commuting generic, "
     "generic with trace, time-dependent, position-dependent along a pathline, rigid rotation, zero, "
     "time-periodic with period 1/2 (equal values at the start, middle and end of whole-period updates), un-normalised generic handed out as ONE stored array object, simple shear returned as int64 arrays with an int64 position) x "
     "fabric(6) x accepted regime(5) x all points within <=1 deviation of the default over (n_grains "
@@ -30,7 +30,7 @@ ASSUMPTIONS = [
 ]
 BOUND = {"quick": "span of strain 1 (time 1 at unit strain rate), <=20 updates per partition, <=1 root deviation", "thorough": "span 1 and 2, <=2 root deviations"}
 
-F0_LETTERS = ["I", "shear", "stretch", "rotstretch", "generic", "shear_i64"]
+F0_LETTERS = ["I", "shear", "stretch", "rotstretch", "generic", "shear_i64", "generic_fortran", "generic_tview"]
 FLOW_LETTERS = ["ss_xz", "ps_xy", "gen", "gentr", "time", "pos", "rigid", "zero", "st_gen", "i64_ss", "per"]
 PARTS = [("k", 1), ("k", 2), ("k", 5), ("k", 20)] + [("c", c) for c in [(1, 3), (2, 2), (3, 1), (1, 1, 2), (1, 2, 1), (2, 1, 1)]]
 AXES = {"ng": [5, 2, 50], "prm": ["default", "M200chi0.9", "M0chi0", "lam0"], "tex": ["random", "single", "aligned"]}
@@ -177,7 +177,7 @@ def run_case(key):
                 for x in names[::-1] if key["order"] == "rev" else names:
                     fabn = "olA" if x == "ol" else "enAB"
                     minerals.append(H.build_mineral(dict(fab=fabn, reg="disl", tex="random", vol="uniform", ng=4)))
-            F, t, strain, N = F0.copy(), T0, 0.0, 0
+            F, t, strain, N = np.array(F0, copy=True, order="K") if F0.flags.c_contiguous or F0.flags.f_contiguous else F0, T0, 0.0, 0
             tau = 0.0
             ok = True
             for dt in steps:
